@@ -525,3 +525,407 @@ Proof.
     + apply IH; [exact Hnp|discriminate].
   - cbn [pads_between_tags]. apply IH; [exact Hnp|reflexivity].
 Qed.
+
+(* ------------------------------------------------------------------------------------------- *)
+(* D. reading back what the formatter wrote                                                     *)
+(* ------------------------------------------------------------------------------------------- *)
+Definition asafe (strict : bool) (v : str) : bool := if strict then attr_safe v else true.
+
+Lemma rd_attr_escape strict v : asafe strict v = true -> rd_attr strict (escape_attr v) = Some v.
+Proof.
+  destruct strict; cbn [asafe rd_attr]; intros H.
+  - apply xml_attr_roundtrip. exact H.
+  - apply rio_unescape_escape.
+Qed.
+
+Lemma escape_nil s : escape s = [] -> s = [].
+Proof.
+  destruct s as [|c s]; [reflexivity|]. rewrite escape_cons.
+  destruct (esc1_cases c) as [[_ E]|[[_ E]|[[_ E]|[[_ E]|[[_ E]|[_ E]]]]]]; rewrite E; discriminate.
+Qed.
+
+Lemma forallb_has_false (P : N -> bool) c l : forallb P l = true -> P c = false -> has c l = false.
+Proof.
+  intros H Hc. unfold has. induction l as [|x l IH]; [reflexivity|]. cbn [forallb existsb] in *.
+  apply andb_true_iff in H as [Hx Hl]. rewrite (IH Hl), orb_false_r.
+  destruct (N.eqb_spec c x); [subst; congruence|reflexivity].
+Qed.
+Lemma ncname_name_chars s : is_ncname s = true -> forallb is_name_char s = true /\ forallb not_colon s = true.
+Proof.
+  unfold is_ncname, is_name. destruct s as [|c r]; [discriminate|]. intros H.
+  apply andb_true_iff in H as [H1 H2]. apply andb_true_iff in H1 as [Hs Hn].
+  split; [|exact H2]. cbn [forallb]. rewrite (name_start_is_name c Hs), Hn. reflexivity.
+Qed.
+Lemma ncname_no_amp s : is_ncname s = true -> has 38 s = false.
+Proof. intros H. apply (forallb_has_false is_name_char); [apply ncname_name_chars; exact H|vm_compute; reflexivity]. Qed.
+Lemma ncname_no_colon s : is_ncname s = true -> has 58 s = false.
+Proof. intros H. apply (forallb_has_false not_colon); [apply ncname_name_chars; exact H|vm_compute; reflexivity]. Qed.
+
+Lemma has_app c a b : has c (a ++ b) = has c a || has c b.
+Proof. unfold has. apply existsb_app. Qed.
+Lemma attr_safe_app_l a b : attr_safe (a ++ b) = true -> attr_safe a = true.
+Proof.
+  unfold attr_safe, xml_str. rewrite forallb_app, !has_app. intros H.
+  apply andb_true_iff in H as [H H13]. apply andb_true_iff in H as [H H10]. apply andb_true_iff in H as [Hx H9].
+  apply andb_true_iff in Hx as [Hx _].
+  apply negb_true_iff, orb_false_iff in H9 as [-> _].
+  apply negb_true_iff, orb_false_iff in H10 as [-> _].
+  apply negb_true_iff, orb_false_iff in H13 as [-> _]. rewrite Hx. reflexivity.
+Qed.
+
+(* the two shapes of a property element name *)
+Lemma prop_name_cases p :
+  (exists ns loc, loc <> [] /\ ns ++ loc = p /\ is_ncname loc = true
+                  /\ snd (split_iri p) = loc /\ prop_name p = (QLocal loc, (KXmlns, escape_attr ns)))
+  \/ (snd (split_iri p) = [] /\ prop_name p = (QPropEmpty, (KXmlnsProp, escape_attr p))).
+Proof.
+  pose proof (split_concat p) as Hc. pose proof (split_local p) as Hl.
+  unfold prop_name. destruct (split_iri p) as [ns loc]. cbn [fst snd] in *.
+  destruct loc as [|c r].
+  - right. rewrite app_nil_r in Hc. subst. auto.
+  - left. exists ns, (c :: r). destruct Hl as [Hl|Hl]; [discriminate|].
+    repeat split; try assumption. discriminate.
+Qed.
+
+Lemma pred_ok_facts strict p : pred_ok strict p = true ->
+  has 58 p = true /\ is_reserved p = false /\ str_eqb p rdf_li = false
+  /\ (strict = true -> attr_safe p = true /\ snd (split_iri p) <> []).
+Proof.
+  unfold pred_ok. intros H. apply andb_true_iff in H as [H Hs]. apply andb_true_iff in H as [Hc Hr].
+  apply negb_true_iff in Hr. split; [exact Hc|]. split; [exact Hr|]. split.
+  - destruct (str_eqb p rdf_li) eqn:E; [|reflexivity]. apply str_eqb_eq in E. subst p.
+    assert (is_reserved rdf_li = true) by (vm_compute; reflexivity). congruence.
+  - intros ->. apply andb_true_iff in Hs as [Ha Hn]. split; [exact Ha|].
+    destruct (snd (split_iri p)); [discriminate|discriminate].
+Qed.
+
+Lemma resolve_prop_ok strict p q x more :
+  pred_ok strict p = true -> prop_name p = (q, x) -> resolve_prop strict q (x :: more) = Some p.
+Proof.
+  intros Hok E. destruct (pred_ok_facts strict p Hok) as (Hcolon & _ & _ & Hstrict).
+  destruct (prop_name_cases p) as [(ns & loc & Hne & Hcat & Hnc & Hsnd & E')|[Hnil E']];
+    rewrite E' in E; injection E as <- <-.
+  - (* QLocal *)
+    cbn [resolve_prop get akey_eqb].
+    assert (Hns : ns <> []).
+    { intros ->. cbn [app] in Hcat. subst loc. rewrite (ncname_no_colon p Hnc) in Hcolon. discriminate. }
+    unfold escape_attr. destruct (escape ns) as [|e0 er] eqn:Ee; [apply escape_nil in Ee; contradiction|]. rewrite <- Ee.
+    destruct strict.
+    + rewrite Hnc. destruct (Hstrict eq_refl) as [Hsafe _].
+      rewrite <- Hcat in Hsafe. apply attr_safe_app_l in Hsafe.
+      pose proof (xml_attr_roundtrip ns Hsafe) as R. unfold escape_attr in R. rewrite R.
+      destruct ns; [contradiction|]. cbn [nonempty option_map]. rewrite Hcat. reflexivity.
+    + unfold rio_unescape. rewrite unesc_escape_app, lit_map_id, (unesc_no_amp _ _ _ (ncname_no_amp loc Hnc)), map_idN.
+      cbn [option_map]. rewrite Hcat. reflexivity.
+  - (* QPropEmpty *)
+    cbn [resolve_prop get akey_eqb].
+    assert (Hp : p <> []) by (intros ->; discriminate).
+    unfold escape_attr. destruct (escape p) as [|e0 er] eqn:Ee; [apply escape_nil in Ee; contradiction|]. rewrite <- Ee.
+    destruct strict.
+    + destruct (Hstrict eq_refl) as [_ Hn]. contradiction.
+    + apply rio_unescape_escape.
+Qed.
+
+Lemma prop_name_key p q x : prop_name p = (q, x) -> fst x = KXmlns \/ fst x = KXmlnsProp.
+Proof.
+  unfold prop_name. destruct (split_iri p) as [ns loc]. destruct loc; intros E; injection E as <- <-; auto.
+Qed.
+
+Lemma start_prop_ok strict s li p q x more :
+  pred_ok strict p = true -> prop_name p = (q, x) ->
+  start_prop strict s li q (x :: more) =
+    match opt_attr strict KLang more, opt_attr strict KDatatype more, read_obj strict more with
+    | Some lang, Some dt, Some obj => Some (MProp s li p (option_map lower lang) dt obj)
+    | _, _, _ => None
+    end.
+Proof.
+  intros Hok E. unfold start_prop. rewrite (resolve_prop_ok strict p q x more Hok E).
+  destruct (pred_ok_facts strict p Hok) as (_ & Hr & Hli & _). rewrite Hli, Hr.
+  destruct x as [k v]. destruct (prop_name_key p q (k, v) E) as [Hk|Hk]; cbn [fst] in Hk; subst k;
+    unfold opt_attr, read_obj; cbn [get akey_eqb]; reflexivity.
+Qed.
+
+Lemma lit_ok_rd strict v : lit_ok strict v = true -> rd_text strict (escape_text v) = Some v.
+Proof.
+  destruct strict; cbn [lit_ok rd_text]; intros H.
+  - apply xml_text_roundtrip. exact H.
+  - apply rio_unescape_escape.
+Qed.
+
+Lemma run_text_end strict s li p lang dt acc v q rest :
+  lit_ok strict v = true ->
+  run strict (Some (MProp s li p lang dt None, acc)) (EText (escape_text v) :: EEnd q :: rest)
+  = run strict (Some (MNode s li, acc ++ [(s, p, mk_lit lang dt v)])) rest.
+Proof.
+  intros Hv. rewrite run_cons. cbn [step]. unfold step_text. rewrite (lit_ok_rd strict v Hv).
+  destruct strict.
+  - rewrite run_cons. reflexivity.
+  - unfold escape_text. rewrite ws_only_escape. cbn [lit_ok] in Hv. unfold rio_text_ok in Hv.
+    destruct v as [|c v'].
+    + cbn [ws_only forallb]. rewrite run_cons. reflexivity.
+    + apply negb_true_iff in Hv. rewrite Hv. rewrite run_cons. reflexivity.
+Qed.
+
+Lemma node_ok_asafe strict n : node_ok strict n = true ->
+  match n with RIri i => asafe strict i = true | RBnode b => is_ncname b = true /\ asafe strict b = true end.
+Proof.
+  destruct n as [i|b]; cbn [node_ok asafe]; [auto|]. intros H. apply andb_true_iff in H. exact H.
+Qed.
+
+Lemma read_subject_ok strict s : node_ok strict s = true -> read_subject strict [subj_attr s] = Some s.
+Proof.
+  intros H. apply node_ok_asafe in H. destruct s as [i|b]; unfold read_subject, subj_attr; cbn [get akey_eqb].
+  - rewrite (rd_attr_escape strict i H). reflexivity.
+  - destruct H as [Hn Ha]. unfold node_id. rewrite (rd_attr_escape strict b Ha), Hn. reflexivity.
+Qed.
+
+Definition mode_of (cur : option rnode) (li : N) : mode :=
+  match cur with None => MRdf | Some c => MNode c li end.
+
+Lemma rnode_eqb_eq a b : rnode_eqb a b = true -> a = b.
+Proof. destruct a, b; cbn [rnode_eqb]; try discriminate; intros H; apply str_eqb_eq in H; subst; reflexivity. Qed.
+
+Lemma run_open strict cur li acc s rest :
+  node_ok strict s = true ->
+  exists li', run strict (Some (mode_of cur li, acc)) (fmt_open cur s ++ rest)
+              = run strict (Some (MNode s li', acc)) rest.
+Proof.
+  intros Hs. unfold fmt_open. destruct cur as [c|]; cbn [mode_of].
+  - destruct (rnode_eqb c s) eqn:E.
+    + apply rnode_eqb_eq in E. subst c. exists li. reflexivity.
+    + exists 0. cbn [app]. rewrite run_cons. cbn [step step_end]. rewrite run_cons. cbn [step step_start].
+      rewrite (read_subject_ok strict s Hs). reflexivity.
+  - exists 0. cbn [app]. rewrite run_cons. cbn [step step_start].
+    rewrite (read_subject_ok strict s Hs). reflexivity.
+Qed.
+
+Lemma run_prop strict s li acc p o rest :
+  pred_ok strict p = true -> obj_ok strict o = true ->
+  run strict (Some (MNode s li, acc)) (fmt_prop p o ++ rest)
+  = run strict (Some (MNode s li, acc ++ [(s, p, norm_obj o)])) rest.
+Proof.
+  intros Hp Ho. unfold fmt_prop. destruct (prop_name p) as [q x] eqn:E.
+  destruct o as [[i|b]|v|v tag|v dt]; cbn [app norm_obj].
+  - (* IRI object *)
+    rewrite run_cons. cbn [step step_start]. rewrite (start_prop_ok strict s li p q x _ Hp E).
+    unfold opt_attr, read_obj. cbn [get akey_eqb].
+    cbn [obj_ok] in Ho. apply node_ok_asafe in Ho. rewrite (rd_attr_escape strict i Ho). reflexivity.
+  - (* blank object *)
+    rewrite run_cons. cbn [step step_start]. rewrite (start_prop_ok strict s li p q x _ Hp E).
+    unfold opt_attr, read_obj. cbn [get akey_eqb].
+    cbn [obj_ok] in Ho. apply node_ok_asafe in Ho. destruct Ho as [Hn Ha].
+    unfold node_id. rewrite (rd_attr_escape strict b Ha), Hn. reflexivity.
+  - (* simple literal *)
+    rewrite run_cons. cbn [step step_start]. rewrite (start_prop_ok strict s li p q x _ Hp E).
+    unfold opt_attr, read_obj. cbn [get akey_eqb option_map].
+    cbn [obj_ok] in Ho. apply (run_text_end strict s li p None None acc v q rest Ho).
+  - (* language-tagged *)
+    rewrite run_cons. cbn [step step_start]. rewrite (start_prop_ok strict s li p q x _ Hp E).
+    unfold opt_attr, read_obj. cbn [get akey_eqb].
+    cbn [obj_ok] in Ho. apply andb_true_iff in Ho as [Hv Ht].
+    rewrite (rd_attr_escape strict tag Ht). cbn [option_map].
+    apply (run_text_end strict s li p (Some (lower tag)) None acc v q rest Hv).
+  - (* typed *)
+    rewrite run_cons. cbn [step step_start]. rewrite (start_prop_ok strict s li p q x _ Hp E).
+    unfold opt_attr, read_obj. cbn [get akey_eqb].
+    cbn [obj_ok] in Ho. apply andb_true_iff in Ho as [Hv Ht].
+    rewrite (rd_attr_escape strict dt Ht). cbn [option_map].
+    apply (run_text_end strict s li p None (Some dt) acc v q rest Hv).
+Qed.
+
+Lemma run_body strict : forall ts cur li acc,
+  forallb (triple_ok strict) ts = true ->
+  run strict (Some (mode_of cur li, acc)) (fmt_body cur ts ++ [EEnd QRdf])
+  = Some (MEnd, acc ++ map norm_t ts).
+Proof.
+  induction ts as [|t ts IH]; intros cur li acc Hok.
+  - cbn [fmt_body map]. rewrite app_nil_r. destruct cur; reflexivity.
+  - cbn [forallb] in Hok. apply andb_true_iff in Hok as [Ht Hts].
+    destruct t as [[s p] o]. cbn [triple_ok] in Ht.
+    apply andb_true_iff in Ht as [Ht Ho]. apply andb_true_iff in Ht as [Hs Hp].
+    cbn [fmt_body fst]. unfold fmt_triple. rewrite <- !app_assoc.
+    destruct (run_open strict cur li acc s (fmt_prop p o ++ fmt_body (Some s) ts ++ [EEnd QRdf]) Hs) as [li' ->].
+    rewrite (run_prop strict s li' acc p o _ Hp Ho).
+    pose proof (IH (Some s) li' (acc ++ [(s, p, norm_obj o)]) Hts) as R. cbn [mode_of] in R. rewrite R.
+    cbn [map norm_t]. rewrite <- app_assoc. reflexivity.
+Qed.
+
+(* THEOREM (round trip on the event level, both readers): every list of Rio triples in the class
+   is read back exactly, in order, with the same blank node labels; language tags lower-cased *)
+Theorem events_roundtrip strict ts :
+  forallb (triple_ok strict) ts = true -> read strict (fmt_doc ts) = Some (map norm_t ts).
+Proof.
+  intros H. unfold read, fmt_doc. rewrite run_cons. cbn [step]. rewrite run_cons. cbn [step step_start].
+  pose proof (run_body strict ts None 0 [] H) as R. cbn [mode_of app] in R. rewrite R. reflexivity.
+Qed.
+
+Theorem document_roundtrip strict k ts :
+  forallb (triple_ok strict) ts = true -> read strict (doc_events k ts) = Some (map norm_t ts).
+Proof. intros H. rewrite indentation_irrelevant. apply events_roundtrip. exact H. Qed.
+
+(* ------------------------------------------------------------------------------------------- *)
+(* E. sophia: convert_triple, serialize_triples, and the parser adapter                         *)
+(* ------------------------------------------------------------------------------------------- *)
+Definition is_node_term (t : term) : bool := match t with Iri _ | Bnode _ => true | _ => false end.
+Definition is_iri_term (t : term) : bool := match t with Iri _ => true | _ => false end.
+Definition is_obj_term (t : term) : bool :=
+  match t with Iri _ | Bnode _ | LitDt _ _ | LitLang _ _ => true | _ => false end.
+(* the triples RDF/XML can express, as far as sophia is concerned *)
+Definition representable (t : term * term * term) : bool :=
+  let '(s, p, o) := t in is_node_term s && is_iri_term p && is_obj_term o.
+Definition flat_term (t : term) : bool := match t with Triple _ _ _ => false | _ => true end.
+Definition flat3 (t : term * term * term) : bool :=
+  let '(s, p, o) := t in flat_term s && flat_term p && flat_term o.
+
+(* THEOREM (sophia convert_triple): exactly the triples with IRI/blank subject, IRI predicate and
+   IRI/blank/literal object are handed to the formatter, unchanged (unconvert is the parser-side
+   adapter, so this is also "adapter after convert_triple = identity") *)
+Theorem convert_representable t :
+  representable t = true -> exists x, convert t = CTriple x /\ unconvert x = t.
+Proof.
+  destruct t as [[s p] o]. destruct s; try discriminate; destruct p; try discriminate;
+    destruct o; try discriminate; intros _; cbn [convert].
+  all: try (eexists; split; [reflexivity|reflexivity]).
+  all: destruct (str_eqb xsd_string dt) eqn:E; eexists; (split; [reflexivity|]); cbn [unconvert term_of_node term_of_obj];
+       try reflexivity; apply str_eqb_eq in E; subst; reflexivity.
+Qed.
+
+(* ... every other triple without quoted triples (generalised RDF: literal or variable subject,
+   non-IRI predicate, variable object) is silently skipped *)
+Theorem convert_skips t : flat3 t = true -> representable t = false -> convert t = CSkip.
+Proof.
+  destruct t as [[s p] o]. destruct s; destruct p; destruct o; cbn [flat3 flat_term representable is_node_term is_iri_term is_obj_term andb];
+    try discriminate; intros _ _; reflexivity.
+Qed.
+
+(* ... and a triple whose subject or object is a (convertible) quoted triple reaches the formatter,
+   which answers with an error: serialisation of RDF-star data fails, it does not skip *)
+Example quoted_subject_fails : forall k a b c,
+  serialize k [(Triple (Iri a) (Iri b) (Iri c), Iri b, Iri c)] = SerErrSubj.
+Proof. reflexivity. Qed.
+Example quoted_object_fails : forall k a b c,
+  serialize k [(Iri a, Iri b, Triple (Iri a) (Iri b) (LitDt c c))] = SerErrObj.
+Proof. reflexivity. Qed.
+Example quoted_unconvertible_skipped : forall k a b c,
+  serialize k [(Iri a, Iri b, Triple (LitDt c c) (Iri b) (Iri a))] = serialize k [].
+Proof. reflexivity. Qed.
+
+Lemma collect_flat g : forallb flat3 g = true ->
+  snd (collect g) = None /\ map unconvert (fst (collect g)) = filter representable g.
+Proof.
+  induction g as [|t g IH]; [auto|]. cbn [forallb]. intros H. apply andb_true_iff in H as [Ht Hg].
+  destruct (IH Hg) as [IH1 IH2]. cbn [collect filter].
+  destruct (representable t) eqn:R.
+  - destruct (convert_representable t R) as (x & -> & Hx).
+    destruct (collect g) as [ts e]. cbn [fst snd map] in *. rewrite IH1, IH2, Hx. auto.
+  - rewrite (convert_skips t Ht R). auto.
+Qed.
+
+Definition norm_term3 (t : term * term * term) : term * term * term :=
+  let '(s, p, o) := t in (s, p, match o with LitLang v tag => LitLang v (lower tag) | x => x end).
+Lemma unconvert_norm x : unconvert (norm_t x) = norm_term3 (unconvert x).
+Proof. destruct x as [[s p] o]. destruct o as [n|v|v tag|v dt]; try reflexivity. destruct n; reflexivity. Qed.
+
+Lemma term_eqb_refl t : term_eqb t t = true.
+Proof.
+  induction t; cbn [term_eqb]; rewrite ?str_eqb_refl; try reflexivity.
+  - unfold str_eqb_ci. rewrite str_eqb_refl. reflexivity.
+  - rewrite IHt1, IHt2, IHt3. reflexivity.
+Qed.
+(* lower-casing the tag is invisible to Term::eq *)
+Lemma norm_term3_eq t : triple3_eqb (norm_term3 t) t = true.
+Proof.
+  destruct t as [[s p] o]. unfold triple3_eqb, norm_term3. rewrite !term_eqb_refl. cbn [andb].
+  destruct o; try apply term_eqb_refl. cbn [term_eqb]. rewrite str_eqb_refl. unfold str_eqb_ci.
+  rewrite lower_idem, str_eqb_refl. reflexivity.
+Qed.
+
+(* the class, on sophia's side: the Rio triples handed to the formatter are all in the class *)
+Definition graph_ok (strict : bool) (g : list (term * term * term)) : bool :=
+  forallb (triple_ok strict) (fst (collect g)).
+
+(* THEOREM (the property, on the model): for a graph without quoted triples whose representable
+   triples are in the class, serialisation succeeds with every indentation and reading the written
+   events gives exactly the representable triples, in order, same labels, tags lower-cased *)
+Theorem sophia_roundtrip strict k g :
+  forallb flat3 g = true -> graph_ok strict g = true ->
+  serialize k g = SerOk (flatten (doc_events k (fst (collect g))))
+  /\ model_parse strict k g = Some (map norm_term3 (filter representable g)).
+Proof.
+  intros Hf Hok. destruct (collect_flat g Hf) as [He Hm]. unfold serialize, model_parse, graph_ok in *.
+  destruct (collect g) as [ts e]. cbn [fst snd] in *. subst e. split; [reflexivity|].
+  rewrite (document_roundtrip strict k ts Hok). cbn [option_map]. rewrite map_map.
+  rewrite <- Hm, map_map. f_equal. apply map_ext. intros x. apply unconvert_norm.
+Qed.
+
+(* THEOREM (indentation, on sophia's configuration): for EVERY graph -- in the class or not,
+   with either reader -- the indentation setting does not change what is read back *)
+Theorem indentation_never_matters strict k g : model_parse strict k g = model_parse strict 0 g.
+Proof.
+  unfold model_parse. destruct (collect g) as [ts [e|]]; [reflexivity|].
+  rewrite !indentation_irrelevant. reflexivity.
+Qed.
+(* ... and whether serialisation succeeds does not depend on it either *)
+Theorem indentation_same_outcome k g :
+  match serialize k g, serialize 0 g with
+  | SerOk _, SerOk _ | SerErrSubj, SerErrSubj | SerErrObj, SerErrObj => True
+  | _, _ => False
+  end.
+Proof. unfold serialize. destruct (collect g) as [ts [[]|]]; exact I. Qed.
+
+(* ---- refutations: what happens outside the classes (each is an observed behaviour) ---- *)
+Definition ex_s : term := Iri [104;116;116;112;58;47;47;101;47;115].            (* http://e/s *)
+Definition ex_p : term := Iri [104;116;116;112;58;47;47;101;47;112].            (* http://e/p *)
+(* KNOWN FINDING: a whitespace-only literal is re-read as "" by Rio's reader; the document
+   itself is right (the XML/RDF reader gives the literal back) *)
+Example ws_only_literal_refuted :
+  model_parse false 0 [(ex_s, ex_p, LitDt [32] xsd_string)] = Some [(ex_s, ex_p, LitDt [] xsd_string)]
+  /\ model_parse true 0 [(ex_s, ex_p, LitDt [32] xsd_string)] = Some [(ex_s, ex_p, LitDt [32] xsd_string)]
+  /\ model_parse false 4 [(ex_s, ex_p, LitLang [10;9] [101;110])] = Some [(ex_s, ex_p, LitLang [] [101;110])].
+Proof. vm_compute. repeat split; reflexivity. Qed.
+(* a blank node label starting with a digit is written as rdf:nodeID="0a": not an NCName, rejected by both readers *)
+Example bnode_digit_refuted :
+  model_parse false 0 [(Bnode [48;97], ex_p, ex_s)] = None /\ model_parse true 0 [(ex_s, ex_p, Bnode [48])] = None.
+Proof. vm_compute. split; reflexivity. Qed.
+(* rdf:li as a predicate is read back as rdf:_1; rdf:Description / rdf:about ... are rejected *)
+Example rdf_li_refuted :
+  model_parse false 0 [(ex_s, Iri rdf_li, ex_s)] = Some [(ex_s, Iri (rdf_ns ++ [95;49]), ex_s)]
+  /\ model_parse false 0 [(ex_s, Iri (rdf_ns ++ l_Description), ex_s)] = None
+  /\ model_parse false 0 [(ex_s, Iri (rdf_ns ++ l_about), ex_s)] = None.
+Proof. vm_compute. repeat split; reflexivity. Qed.
+(* a predicate with no NCName suffix is written as <prop: xmlns:prop="...">: Rio's reader accepts
+   the empty local part, a namespace-aware XML reader does not *)
+Example unsplittable_predicate_refuted :
+  let g := [(ex_s, Iri [117;114;110;58;49], ex_s)] in             (* urn:1 *)
+  model_parse false 0 g = Some g /\ model_parse true 0 g = None.
+Proof. vm_compute. split; reflexivity. Qed.
+(* CR survives Rio's reader (quick-xml does no end-of-line normalisation) but not an XML reader *)
+Example cr_literal_refuted :
+  let g := [(ex_s, ex_p, LitDt [97;13;98] xsd_string)] in
+  model_parse false 0 g = Some g /\ model_parse true 0 g = Some [(ex_s, ex_p, LitDt [97;10;98] xsd_string)].
+Proof. vm_compute. split; reflexivity. Qed.
+(* a character outside XML's Char production is written raw, without an error *)
+Example illegal_char_written :
+  let g := [(ex_s, ex_p, LitDt [1] xsd_string)] in
+  (exists d, serialize 0 g = SerOk d /\ xml_str d = false) /\ model_parse false 0 g = Some g /\ model_parse true 0 g = None.
+Proof. vm_compute. split; [eexists; split; reflexivity|split; reflexivity]. Qed.
+(* generalised triples are skipped, the rest is kept *)
+Example generalised_skipped :
+  model_parse true 2 [(LitDt [49] xsd_string, ex_p, ex_s); (ex_s, Bnode [98], ex_s); (ex_s, ex_p, Var [118]); (ex_s, ex_p, ex_s)]
+  = Some [(ex_s, ex_p, ex_s)].
+Proof. vm_compute. reflexivity. Qed.
+
+(* non-vacuity of the classes: markup characters, leading/trailing whitespace and newlines, TAB,
+   a non-BMP character, rdf:XMLLiteral-typed text, an upper-case language tag, blank nodes in
+   subject and object position, three different namespace split points *)
+Definition ex_graph : list (term * term * term) :=
+  [ (ex_s, ex_p, LitDt [32;60;38;62;34;39;10;9;128512;32] xsd_string);
+    (ex_s, Iri [104;116;116;112;58;47;47;101;47;49;97], Bnode [98;46;99]);                   (* http://e/1a , _:b.c *)
+    (Bnode [98;46;99], Iri [117;114;110;58;120;58;121], LitLang [10;97;10] [69;78;45;117;115]);    (* urn:x:y , "\na\n"@EN-us *)
+    (Bnode [98;46;99], ex_p, LitDt [60;98;62;38;97;109;112;59;60;47;98;62] (rdf_ns ++ [88;77;76;76;105;116;101;114;97;108])) ].
+Example ex_graph_in_both_classes :
+  forallb flat3 ex_graph = true /\ graph_ok true ex_graph = true /\ graph_ok false ex_graph = true.
+Proof. vm_compute. repeat split; reflexivity. Qed.
+Example ex_graph_roundtrip :
+  model_parse true 8 ex_graph = Some (map norm_term3 ex_graph) /\ model_parse false 3 ex_graph = Some (map norm_term3 ex_graph).
+Proof. vm_compute. split; reflexivity. Qed.
